@@ -268,8 +268,9 @@ def _axis(draw, name, tag, v5, force_default_in_map, want=None):
         ax["minimum"], ax["default"], ax["maximum"] = lo, d, hi
         if draw(st.booleans()):
             ins = draw(st.lists(ds_num(), min_size=1, max_size=4, unique_by=_fmt6))
-            if force_default_in_map and all(_fmt6(i) != _fmt6(d) for i in ins):
-                ins.append(d)
+            if force_default_in_map and all(float(i) != float(d) for i in ins):
+                # the default itself (not merely a value that prints like it) is a map input
+                ins = [i for i in ins if _fmt6(i) != _fmt6(d)] + [d]
             ins = sorted(ins)
             outs = sorted(draw(st.lists(ds_num(), min_size=len(ins), max_size=len(ins))))
             ax["map"] = [[a, b] for a, b in zip(ins, outs)]
